@@ -89,3 +89,218 @@ func TestSmokeFlow(t *testing.T) {
 		t.Fatalf("rows did not arrive")
 	}
 }
+
+// TestSmokeRecreate: create, delete, create again on the same target; data must flow for the second task.
+func TestSmokeRecreate(t *testing.T) {
+	if os.Getenv("VERIF_SMOKE") == "" {
+		t.Skip("set VERIF_SMOKE=1")
+	}
+	if os.Getenv("VERIF_SMOKE") == "2" {
+		log.SetLevel(zapcore.InfoLevel)
+	}
+	tf := tfatal{t}
+	w := newWorld(tf, worldOpt{targets: 1})
+	defer w.close(tf)
+	w.start(tf, false)
+	p := w.newProducer()
+	defer p.close()
+	c := w.addSourceCollection(tf, "default", "c1", 1, w.targets[0])
+	p.tick(c.pch[0], 10)
+	req := map[string]any{"milvus_connect_param": map[string]any{"uri": w.uris[0], "connect_timeout": 3}, "collection_infos": []any{map[string]any{"name": "c1"}}}
+	for round := 0; round < 3; round++ {
+		r := w.inc.post(tf, "create", req)
+		id, _ := r.Data["task_id"].(string)
+		rows := p.insert(c, 0, 1, 10)
+		p.tick(c.pch[0], 10)
+		p.tick(c.pch[0], 10)
+		ok := waitFor(8*time.Second, func() bool { return acceptedRows(w.targets[0])[rows[0]] > 0 })
+		fmt.Println("round", round, "create", r.Code, "row arrived:", ok)
+		if !ok {
+			fmt.Println(quiesce.Dump())
+			t.Fatalf("row did not arrive in round %d", round)
+		}
+		d := w.inc.post(tf, "delete", map[string]any{"task_id": id})
+		fmt.Println("delete", d.Code)
+	}
+}
+
+// TestSmokeShared: two tasks on one target sharing the channels; delete the first; the second must keep replicating.
+func TestSmokeShared(t *testing.T) {
+	if os.Getenv("VERIF_SMOKE") == "" {
+		t.Skip("set VERIF_SMOKE=1")
+	}
+	if os.Getenv("VERIF_SMOKE") == "2" {
+		log.SetLevel(zapcore.InfoLevel)
+	}
+	tf := tfatal{t}
+	w := newWorld(tf, worldOpt{targets: 1})
+	defer w.close(tf)
+	w.start(tf, false)
+	p := w.newProducer()
+	defer p.close()
+	c1 := w.addSourceCollection(tf, "default", "c1", 1, w.targets[0])
+	c2 := w.addSourceCollection(tf, "default", "c2", 1, w.targets[0])
+	p.tick(c1.pch[0], 10)
+	mk := func(name string) string {
+		r := w.inc.post(tf, "create", map[string]any{"milvus_connect_param": map[string]any{"uri": w.uris[0], "connect_timeout": 3}, "collection_infos": []any{map[string]any{"name": name}}})
+		id, _ := r.Data["task_id"].(string)
+		return id
+	}
+	t1, t2 := mk("c1"), mk("c2")
+	_ = t2
+	step := func(tag string, cs ...*srcColl) {
+		var rows []int64
+		for _, c := range cs {
+			rows = append(rows, p.insert(c, 0, 1, 10)...)
+		}
+		p.tick(c1.pch[0], 10)
+		p.tick(c1.pch[0], 10)
+		ok := waitFor(6*time.Second, func() bool {
+			acc := acceptedRows(w.targets[0])
+			for _, r := range rows {
+				if acc[r] == 0 {
+					return false
+				}
+			}
+			return true
+		})
+		fmt.Println(tag, "rows arrived:", ok)
+		if !ok {
+			fmt.Println(quiesce.Dump())
+			t.Fatalf("%s: rows did not arrive", tag)
+		}
+	}
+	step("both", c1, c2)
+	fmt.Println("delete t1", w.inc.post(tf, "delete", map[string]any{"task_id": t1}).Code)
+	step("after delete", c2)
+}
+
+// TestSmokeLeak: reproduction attempt for a consumer that stays open after every task is gone.
+func TestSmokeLeak(t *testing.T) {
+	if os.Getenv("VERIF_SMOKE") == "" {
+		t.Skip("set VERIF_SMOKE=1")
+	}
+	tf := tfatal{t}
+	w := newWorld(tf, worldOpt{targets: 2})
+	defer w.close(tf)
+	w.start(tf, false)
+	p := w.newProducer()
+	defer p.close()
+	var cs []*srcColl
+	for i := 0; i < 3; i++ {
+		c := w.addSourceCollection(tf, "default", fmt.Sprintf("c%d", i+1), 1, nil)
+		for _, tg := range w.targets {
+			tg.AddCollection("default", c.name, 1)
+		}
+		cs = append(cs, c)
+	}
+	p.tick(cs[0].pch[0], 10)
+	mk := func(target int, name string, noAuto bool) string {
+		r := w.inc.post(tf, "create", map[string]any{"milvus_connect_param": map[string]any{"uri": w.uris[target], "connect_timeout": 3}, "collection_infos": []any{map[string]any{"name": name}}, "disable_auto_start": noAuto})
+		id, _ := r.Data["task_id"].(string)
+		fmt.Println("create", target, name, r.Code, "open:", w.inc.mqf.Open())
+		return id
+	}
+	feed := func() {
+		for _, c := range cs {
+			p.insert(c, 0, 1, 5)
+		}
+		p.tick(cs[0].pch[0], 5)
+		p.tick(cs[0].pch[0], 5)
+		time.Sleep(1500 * time.Millisecond)
+	}
+	op := func(typ, id string) {
+		r := w.inc.post(tf, typ, map[string]any{"task_id": id})
+		time.Sleep(300 * time.Millisecond)
+		fmt.Println(typ, r.Code, "open:", w.inc.mqf.Open())
+	}
+	t1 := mk(1, "c3", false)
+	feed()
+	t2 := mk(0, "c2", true)
+	feed()
+	if os.Getenv("VERIF_SMOKE") != "3" {
+		w.inc.kill()
+		time.Sleep(time.Second)
+		w.start(tf, true)
+		fmt.Println("restart open:", w.inc.mqf.Open())
+	}
+	feed()
+	t3 := mk(1, "c1", false)
+	feed()
+	op("resume", t2)
+	feed()
+	op("pause", t3)
+	feed()
+	op("delete", t3)
+	op("delete", t2)
+	op("delete", t1)
+	time.Sleep(time.Second)
+	fmt.Println("final open:", w.inc.mqf.Open())
+	if len(w.inc.mqf.Open()) != 0 {
+		t.Fatalf("leak")
+	}
+}
+
+func TestSmokePauseFail(t *testing.T) {
+	if os.Getenv("VERIF_SMOKE") == "" {
+		t.Skip("set VERIF_SMOKE=1")
+	}
+	tf := tfatal{t}
+	w := newWorld(tf, worldOpt{targets: 1})
+	defer w.close(tf)
+	w.start(tf, false)
+	p := w.newProducer()
+	defer p.close()
+	c := w.addSourceCollection(tf, "default", "c1", 1, w.targets[0])
+	p.tick(c.pch[0], 10)
+	r := w.inc.post(tf, "create", map[string]any{"milvus_connect_param": map[string]any{"uri": w.uris[0], "connect_timeout": 3}, "collection_infos": []any{map[string]any{"name": "c1"}}})
+	id, _ := r.Data["task_id"].(string)
+	time.Sleep(1200 * time.Millisecond)
+	fmt.Println("open after create:", w.inc.mqf.Open())
+	if os.Getenv("VERIF_SMOKE") == "4" {
+		w.inc.store.setHook(func(op *storeOp) error {
+			if op.Kind == "info.put" {
+				return fmt.Errorf("injected")
+			}
+			return nil
+		})
+		fmt.Println("pause#1", w.inc.post(tf, "pause", map[string]any{"task_id": id}).Code)
+		w.inc.store.setHook(nil)
+	}
+	fmt.Println("pause#2", w.inc.post(tf, "pause", map[string]any{"task_id": id}).Code)
+	time.Sleep(time.Second)
+	fmt.Println("open after pause:", w.inc.mqf.Open())
+	fmt.Println(quiesce.Dump())
+}
+
+// TestSmokeQuickRecreate: delete the only task of a target and create a new one at once, many times.
+func TestSmokeQuickRecreate(t *testing.T) {
+	if os.Getenv("VERIF_SMOKE") == "" {
+		t.Skip("set VERIF_SMOKE=1")
+	}
+	tf := tfatal{t}
+	w := newWorld(tf, worldOpt{targets: 1})
+	defer w.close(tf)
+	w.start(tf, false)
+	p := w.newProducer()
+	defer p.close()
+	c := w.addSourceCollection(tf, "default", "c1", 1, w.targets[0])
+	p.tick(c.pch[0], 10)
+	req := map[string]any{"milvus_connect_param": map[string]any{"uri": w.uris[0], "connect_timeout": 3}, "collection_infos": []any{map[string]any{"name": "c1"}}}
+	r := w.inc.post(tf, "create", req)
+	id, _ := r.Data["task_id"].(string)
+	for round := 0; round < 12; round++ {
+		rows := p.insert(c, 0, 1, 10)
+		p.tick(c.pch[0], 10)
+		p.tick(c.pch[0], 10)
+		ok := waitFor(6*time.Second, func() bool { return acceptedRows(w.targets[0])[rows[0]] > 0 })
+		fmt.Println("round", round, "row arrived:", ok)
+		if !ok {
+			fmt.Println(quiesce.Dump())
+			t.Fatalf("row did not arrive in round %d", round)
+		}
+		w.inc.post(tf, "delete", map[string]any{"task_id": id})
+		r = w.inc.post(tf, "create", req)
+		id, _ = r.Data["task_id"].(string)
+	}
+}
